@@ -17,6 +17,7 @@ Sigs(n) == { Diag(Pre(<<<<0, 1>>, <<0, 1>>, <<0, 1>>>>, n)), Diag(Pre(<<<<1, 4>>
 Kernels(d, n) == { Se1(d), Se2(d), Rq1(d), Sum(<<Se1(d), Wn>>), Sum(<<Rq1(d), Hn(n)>>) } \cup (IF n = 2 THEN {Sum(<<Cp(<<Se1(d), Se2(d)>>, <<1>>), Wn>>)} ELSE {})
 Means(d) == { [k |-> "const", th |-> <<2>>], [k |-> "lin", th |-> Pre(<<1, 2, -1>>, 1 + d)], [k |-> "quad", th |-> Pre(<<1, 2, -1, 1, 1>>, 1 + 2 * d)] }
 Queries(d) == IF d = 1 THEN << <<1>>, <<2>>, <<-1>> >> ELSE << <<1, 0>>, <<0, 0>>, <<2, 1>> >>
+CONSTANT Focus       \* "all" | "se" (only the problems with derivative predictions: squared-exponential kernel, <= 2 data points)
 VARIABLES pb, cx, out
 \* two families: everything for n <= 2 data points; for n = 3 a leaner set (exact 3x3 inverses and their products must fit 32 bits)
 Small == {X \in XSets : Len(X) <= 2}
@@ -26,6 +27,7 @@ Init == /\ \/ \E X \in Small : \E kn \in Kernels(Len(X[1]), Len(X)), mf \in Mean
            \/ \E X \in Big : \E kn \in {Se1(Len(X[1])), Rq1(Len(X[1])), Sum(<<Se1(Len(X[1])), Wn>>)}, mf \in {m \in Means(Len(X[1])) : m.k # "quad"},
                                 sg \in {Diag(<<<<1, 4>>, <<1, 4>>, <<1, 4>>>>), Diag(<<<<1, 1>>, <<1, 4>>, <<1, 2>>>>)} :
                  pb = [X |-> X, y |-> Ys, sig |-> sg, kern |-> kn, mean |-> mf]
+        /\ (Focus = "se" => (pb.kern.k = "se" /\ Len(pb.X) <= 2))
         /\ cx = FullContext(pb)
         /\ out = 0
 Q == Queries(Len(pb.X[1]))
